@@ -4,7 +4,8 @@ import StorageModel.Base.Bytes
   Tx/Wire — line protocol of the C07 / C08 drivers: case parser and canonical rendering of
   results, logs and the leaf dump of the database.  Used only by the drivers, never by a proof.
 
-  case  := "E" nP reg* nC reg* txl ["I" nIxP ixreg* nIxC ixreg*] "T" ntx tx*
+  case  := "E" nP reg* nC reg* txl ["I" nIxP ixreg* nIxC ixreg*] ["D" nD reg* nIxD ixreg*] "T" ntx tx*
+           (the D section: registrations and custom index-stage constraints of the second child store)
   ixreg := nveto (stage id)*                  stage: b (ProcessBeforeUpdate) a (ProcessAfterUpdate) d (ProcessBeforeDelete); B A D: the veto is a RecordNotFoundError
            custom boltz.Constraint registered with AddConstraint on the parent / child store
   reg   := "l" style ntypes type*            style: t f u i     type: c u d (sync) C U D (async)
@@ -14,7 +15,10 @@ import StorageModel.Base.Bytes
            (nb / nB: nested Db.Update / Db.Batch with the bound context; sys: switch to the system context)
   fault := "-" | "lP"n | "lC"n | "pP"n | "pC"n
   op    := "cr" σ id fields rank | "up" σ id fields rank | "de" σ id | "dw" σ query
-  fields:= name nroles role* ref             ref: "~" = nil
+  fields:= name nroles role* ref ["G" n tag*]   ref: "~" = nil
+  tag   := nseg seg* leaf                    the entity's tags map, one entry per leaf / empty container
+  seg   := "k" key | "i" index
+  leaf  := "s" string | "t" | "f" (bool) | "n" (nil) | "u" (uint16) | "S" ([]string) | "m" (empty map) | "l" (empty list)
   query := "all" | "name" n | "bad"
   string:= "-" (empty) | hex | "*"len":"hh   (len copies of byte hh)
 -/
@@ -65,6 +69,7 @@ def store : P StoreId := fun ts => do
   match t with
   | "P" => pure (.P, ts)
   | "C" => pure (.C, ts)
+  | "D" => pure (.D, ts)
   | _ => none
 
 def kindOf : String → Option Kind
@@ -146,12 +151,37 @@ def fault : P Fault := fun ts => do
     | "pC" => pure (.persist .C n, ts)
     | _ => none
 
+def seg : P Seg := fun ts => do
+  let (t, ts) ← tok ts
+  match t with
+  | "k" => let (k, ts) ← str ts; pure (.key k, ts)
+  | "i" => let (i, ts) ← nat ts; pure (.idx i, ts)
+  | _ => none
+
+def tagEntry : P TagEntry := fun ts => do
+  let (path, ts) ← counted seg ts
+  let (t, ts) ← tok ts
+  match t with
+  | "s" => let (s, ts) ← str ts; pure (⟨path, .str s⟩, ts)
+  | "t" => pure (⟨path, .bool true⟩, ts)
+  | "f" => pure (⟨path, .bool false⟩, ts)
+  | "n" => pure (⟨path, .nil⟩, ts)
+  | "u" => pure (⟨path, .unsupported 0⟩, ts)
+  | "S" => pure (⟨path, .unsupported 1⟩, ts)
+  | "m" => pure (⟨path, .emptyMap⟩, ts)
+  | "l" => pure (⟨path, .emptyList⟩, ts)
+  | _ => none
+
 def fields : P PFields := fun ts => do
   let (name, ts) ← str ts
   let (roles, ts) ← counted str ts
   let (r, ts) ← tok ts
   let ref ← if r = "~" then some none else (parseStr r).map some
-  pure ({ name := name, roles := roles, ref := ref }, ts)
+  match ts with
+  | "G" :: ts =>
+    let (tags, ts) ← counted tagEntry ts
+    pure ({ name := name, roles := roles, ref := ref, tags := tags }, ts)
+  | _ => pure ({ name := name, roles := roles, ref := ref }, ts)
 
 def op : P Op := fun ts => do
   let (t, ts) ← tok ts
@@ -234,6 +264,8 @@ structure Case where
   txListeners : Nat
   ixP : List IxReg
   ixC : List IxReg
+  regsD : List Reg
+  ixD : List IxReg
   txs : List TxSpec
 
 def parseCase (line : String) : Option Case := do
@@ -252,10 +284,19 @@ def parseCase (line : String) : Option Case := do
         let (t, ts) ← tok ts
         pure ((ixp, ixc, t), ts)
       else pure (([], [], t), ts) : Option ((List IxReg × List IxReg × String) × List String))
+    let ((rd, ixd, t), ts) ←
+      (if t = "D" then do
+        let (rd, ts) ← counted reg ts
+        let (ixd, ts) ← counted ixReg ts
+        let (t, ts) ← tok ts
+        pure ((rd, ixd, t), ts)
+      else pure (([], [], t), ts) : Option ((List Reg × List IxReg × String) × List String))
     if t ≠ "T" then none
     else
       let (txs, ts) ← counted txSpec ts
-      if ts.isEmpty then pure { regsP := rp, regsC := rc, txListeners := txl, ixP := ixp, ixC := ixc, txs := txs } else none
+      if ts.isEmpty then
+        pure { regsP := rp, regsC := rc, txListeners := txl, ixP := ixp, ixC := ixc, regsD := rd, ixD := ixd, txs := txs }
+      else none
 
 /-! ## rendering -/
 
@@ -279,10 +320,12 @@ def renderEnt : Option EntView → String
   | none => "nil"
   | some (.parent id f) => "P:" ++ abbr id ++ "/" ++ renderFields f
   | some (.child id f r) => "C:" ++ abbr id ++ "/" ++ renderFields f ++ "/" ++ abbr r
+  | some (.child2 id f g) => "D:" ++ abbr id ++ "/" ++ renderFields f ++ "/" ++ abbr g
 
 def renderStore : StoreId → String
   | .P => "P"
   | .C => "C"
+  | .D => "D"
 
 def renderKind : Kind → String
   | .created => "c"
@@ -305,6 +348,7 @@ def renderErr : Err → String
   | .parse => "parse"
   | .load => "load"
   | .persist => "persist"
+  | .unsupported => "unsupported"
 
 def b01 (b : Bool) : String := if b then "1" else "0"
 
@@ -361,6 +405,41 @@ def commitActionLog : List Fired → List String
 
 def typed (s : String) : String := String.ofList [Char.ofNat 5] ++ s
 
+/-- boltz.Int32ToBytes: type byte 2, little endian -/
+def int32Bytes (n : Nat) : String :=
+  String.ofList [Char.ofNat 2, Char.ofNat (n % 256), Char.ofNat (n / 256 % 256), Char.ofNat (n / 65536 % 256),
+    Char.ofNat (n / 16777216 % 256)]
+
+def listSizeKeyName : String := "__list__size__36484231-110c-4767-afe2-01b6e3db107a"
+
+def segName : Seg → String
+  | .key k => k
+  | .idx i => int32Bytes i
+
+def leafValue : Leaf → Option String
+  | .str s => some (typed s)
+  | .bool b => some (String.ofList [Char.ofNat 1, Char.ofNat (if b then 1 else 0)])
+  | .nil => some (String.ofList [Char.ofNat 7])
+  | _ => none
+
+/-- the list buckets of a tags value with their sizes: every path prefix followed by an index, and every
+    empty list -/
+def listSizes (tags : List TagEntry) : List (List Seg × Nat) :=
+  let rec prefixes (pre : List Seg) : List Seg → List (List Seg × Nat)
+    | [] => []
+    | .idx i :: rest => (pre, i + 1) :: prefixes (pre ++ [.idx i]) rest
+    | .key k :: rest => prefixes (pre ++ [.key k]) rest
+  let all := tags.flatMap fun e =>
+    prefixes [] e.path ++ (match e.leaf with | .emptyList => [(e.path, 0)] | _ => [])
+  let keys := (all.map (·.1)).eraseDups
+  keys.map fun k => (k, ((all.filter fun p => p.1 == k).map (·.2)).foldl max 0)
+
+/-- leaves of the `tags` bucket of an entity (PutMap / PutList with nesting) -/
+def tagLeaves (base : String) (tags : List TagEntry) : List String :=
+  let pathStr (p : List Seg) : String := "/".intercalate ("tags" :: p.map (fun s => abbr (segName s)))
+  (tags.filterMap fun e => (leafValue e.leaf).map fun v => base ++ pathStr e.path ++ "=" ++ abbr v)
+  ++ (listSizes tags).map fun p => base ++ pathStr p.1 ++ "/" ++ abbr listSizeKeyName ++ "=" ++ abbr (int32Bytes p.2)
+
 /-- key/value leaves of the bucket tree (empty buckets do not show) -/
 def dumpLeaves (db : Db) : List String :=
   let ent (p : String × Ent) : List String :=
@@ -368,8 +447,10 @@ def dumpLeaves (db : Db) : List String :=
     [base ++ "name=" ++ abbr (typed p.2.f.name),
      base ++ "ref=" ++ (match p.2.f.ref with | none => abbr (String.ofList [Char.ofNat 7]) | some r => abbr (typed r))]
     ++ p.2.f.roles.map (fun r => base ++ "roles/" ++ abbr (typed r) ++ "=-")
+    ++ tagLeaves base p.2.f.tags
     ++ ((db.filter fun q => refBytes q.2.f.ref == p.1 && p.1 != "").map fun q => base ++ "backrefs/" ++ abbr (typed q.1) ++ "=-")
     ++ (match p.2.child with | none => [] | some r => [base ++ "ext/rank=" ++ abbr (typed r)])
+    ++ (match p.2.child2 with | none => [] | some g => [base ++ "ext2/grade=" ++ abbr (typed g)])
     ++ ["u/indexes/things/name/" ++ abbr p.2.f.name ++ "=" ++ abbr p.1]
     ++ p.2.f.roles.map (fun r => "u/indexes/things/roles/" ++ abbr r ++ "/" ++ abbr (typed p.1) ++ "=-")
   sortStr (db.flatMap ent)
@@ -416,14 +497,14 @@ def modelLine (t : CrudReturns) (line : String) : String :=
   | some c =>
     if !t.recognised then "model-unknown"
     else
-      let env : Env := { regsP := c.regsP, regsC := c.regsC, txListeners := c.txListeners, t := t, ixP := c.ixP, ixC := c.ixC }
+      let env : Env := { regsP := c.regsP, regsC := c.regsC, txListeners := c.txListeners, t := t, ixP := c.ixP, ixC := c.ixC, regsD := c.regsD, ixD := c.ixD }
       " | ".intercalate (renderCase env [] (runCase env c.txs [] Ctx.empty))
 
 def specLine (line : String) : String :=
   match parseCase line with
   | none => "bad-case"
   | some c =>
-    let env : Env := { regsP := c.regsP, regsC := c.regsC, txListeners := c.txListeners, t := expectedReturns, ixP := c.ixP, ixC := c.ixC }
+    let env : Env := { regsP := c.regsP, regsC := c.regsC, txListeners := c.txListeners, t := expectedReturns, ixP := c.ixP, ixC := c.ixC, regsD := c.regsD, ixD := c.ixD }
     " | ".intercalate (renderSpecCase env [] (Spec.specCase env c.txs [] Ctx.empty))
 
 end StorageModel.Tx.Wire
